@@ -55,7 +55,7 @@ CHECKS = {
    technique="TLA+ functional specification + exhaustive enumeration of the structured input space by TLC + trace validation of every call",
    design="6/C16"),
  "C18": dict(
-   text="The option grammar of util/getopt.h is a TLA+ step function (specs/text/Getopt.tla: one getopt() call per step). TLC enumerates every argument vector of length <= 3 over a 30-token alphabet for three option tables (with / without a missing-argument handler), checking that the grammar is well defined, and prints all of them; the real parser processes every one after an optreset that follows a different vector, plus random vectors to length 8, parses abandoned after 0..3 options and parses that are the first of a fresh process; TLC validates every getopt() call (option, argument, default / missing path) and the final operand index against the grammar.",
+   text="The option grammar of util/getopt.h is a TLA+ step function (specs/text/Getopt.tla: one getopt() call per step). TLC enumerates every argument vector of length <= 3 over a 33-token alphabet for three option tables (with / without a missing-argument handler), checking that the grammar is well defined, and prints all of them; the real parser processes every one after an optreset that follows a different vector, plus random vectors to length 8, parses abandoned after 0..3 options and parses that are the first of a fresh process; TLC validates every getopt() call (option, argument, default / missing path) and the final operand index against the grammar.",
    note="Bounded enumeration (length <= 3 exhaustively; to 8 sampled); three compiled option tables; warnings disabled (opterr = 0).",
    technique="TLA+ grammar specification, exhaustive enumeration of inputs by TLC, trace validation of every parser call against the spec",
    design="6/C18"),
